@@ -10,6 +10,9 @@
 //!
 //! This module implements mechanisms, but does not hardcode any
 //! policy... except the use of a second chance strategy.
+#[cfg(kismet_verif)]
+#[allow(unused_imports)]
+use kismet_vfs::{filetime, libc, rand, std, tempfile};
 use filetime::FileTime;
 use std::fs::DirEntry;
 use std::io::ErrorKind;
